@@ -62,6 +62,7 @@ impl SpatialTrackHandle {
 		let (mut track, handle) =
 			builder.build(self.renderer_shared.clone(), self.internal_buffer_size);
 		track.init_effects(self.renderer_shared.sample_rate.load(Ordering::SeqCst));
+		verif_hook!("track.add.loaded", 0, 0);
 		self.sub_track_controller.insert(track)?;
 		Ok(handle)
 	}
@@ -80,6 +81,7 @@ impl SpatialTrackHandle {
 			position.into().to_(),
 		);
 		track.init_effects(self.renderer_shared.sample_rate.load(Ordering::SeqCst));
+		verif_hook!("track.add.loaded", 0, 0);
 		self.sub_track_controller.insert(track)?;
 		Ok(handle)
 	}
